@@ -867,6 +867,7 @@ func defineUnionTypes(objectType *Union, unionTypes []*Object) ([]*Object, error
 		return definedUnionTypes, err
 	}
 
+	included := map[*Object]bool{}
 	for _, ttype := range unionTypes {
 		if err := invariantf(
 			ttype != nil,
@@ -874,6 +875,13 @@ func defineUnionTypes(objectType *Union, unionTypes []*Object) ([]*Object, error
 		); err != nil {
 			return definedUnionTypes, err
 		}
+		if err := invariantf(
+			!included[ttype],
+			`%v can include %v type only once.`, objectType, ttype,
+		); err != nil {
+			return definedUnionTypes, err
+		}
+		included[ttype] = true
 		if objectType.ResolveType == nil {
 			if err := invariantf(
 				ttype.IsTypeOf != nil,
